@@ -33,6 +33,7 @@ import (
 	"github.com/go-openapi/strfmt"
 
 	"github.com/go-openapi/runtime"
+	"github.com/go-openapi/runtime/verifhook"
 )
 
 // NewRequest creates a new swagger http client request
@@ -146,6 +147,7 @@ func (r *request) buildHTTP(mediaType, basePath string, producers map[string]run
 
 			for fn, v := range r.formFields {
 				for _, vi := range v {
+					verifhook.At("cl.multipart.part")
 					if err := mp.WriteField(fn, vi); err != nil {
 						logClose(err, pw)
 						return
@@ -162,6 +164,7 @@ func (r *request) buildHTTP(mediaType, basePath string, producers map[string]run
 			}()
 			for fn, f := range r.fileFields {
 				for _, fi := range f {
+					verifhook.At("cl.multipart.part")
 					var fileContentType string
 					if p, ok := fi.(interface {
 						ContentType() string
@@ -262,6 +265,7 @@ DoneChoosingBodySource:
 					copied = true
 				}()
 
+				verifhook.At("cl.getbody.copy")
 				if _, copyErr = io.Copy(r.buf, body); copyErr != nil {
 					return nil
 				}
